@@ -4,7 +4,6 @@ CONSTANTS
   MaxDepth = 2
   Export = TRUE
 SPECIFICATION Spec
-CONSTRAINT Depth
 INVARIANT TypeOK
 INVARIANT AliasesAgree
 PROPERTY PureLeavesHeap
